@@ -746,8 +746,10 @@ def check_sentence_split(ctx: Ctx) -> None:
     sp = repo.func(f"{ssr}:split_sentences_regex")
     flow = prog.flow(sp)
     loops = [h for h in flow.cfg.nodes if h.kind == "for"]
-    ok_loop = any(isinstance(h.ast.iter, ast.Name) and any(d.kind == "assign" and isinstance(d.value, ast.Call) and isinstance(d.value.func, ast.Attribute)
-                  and d.value.func.attr == "split" and not d.value.args for d in flow.reaching(h, h.ast.iter.id)) for h in loops)
+    def is_ws_split(e: ast.AST) -> bool:
+        return isinstance(e, ast.Call) and isinstance(e.func, ast.Attribute) and e.func.attr == "split" and not e.args and not e.keywords
+
+    ok_loop = any(is_ws_split(expand_expr(prog, sp, h.ast.iter, h)) for h in loops)
     ctx.ob("R-SENT-split", f"{sp.qual} :: iterates over the whitespace-separated words", ok_loop,
            "sentences are assembled from text.split() words in order", where(sp, sp.node))
     heur = [(n, c) for n, c in flow.all_calls() if isinstance(c.func, ast.Name) and c.func.id == "heuristic"]
